@@ -283,10 +283,28 @@ def main(argv=None) -> int:
         for j in jobs:
             results.append(_worker(j))
     else:
+        # watchdog: a work item that makes no progress for this long (e.g. a generator whose while_loop never
+        # terminates under a defect) ends the run as inconclusive (exit 2) instead of hanging forever
+        stall = float(os.environ.get("VF_STALL_S", "1500" if a.tier == "quick" else "5400"))
         ctx = mp.get_context("spawn")
-        with ctx.Pool(nw, maxtasksperchild=getattr(mod, "MAX_TASKS_PER_CHILD", None)) as pool:
-            for r in pool.imap_unordered(_worker, jobs, chunksize=1):
-                results.append(r)
+        pool = ctx.Pool(nw, maxtasksperchild=getattr(mod, "MAX_TASKS_PER_CHILD", None))
+        try:
+            it = pool.imap_unordered(_worker, jobs, chunksize=1)
+            for _ in range(len(jobs)):
+                try:
+                    results.append(it.next(timeout=stall))
+                except mp.TimeoutError:
+                    done = {json.dumps(r["item"], sort_keys=True, default=str) for r in results}
+                    for j in jobs:
+                        if json.dumps(j[1], sort_keys=True, default=str) not in done:
+                            results.append({"item": j[1], "evaluations": 0, "digests": [], "samples": [], "counters": {},
+                                            "failures": [], "exhaustive": {}, "notes": [], "wall_s": stall,
+                                            "error": {"kind": "harness", "sig": "timeout",
+                                                      "trace": f"no result within {stall:.0f} s (stalled or unfinished work item)"}})
+                    break
+        finally:
+            pool.terminate()
+            pool.join()
     results.sort(key=lambda r: json.dumps(r["item"], sort_keys=True, default=str))
 
     merged = {"evaluations": 0, "digests": set(), "samples": [], "counters": {}, "per_item": [],
